@@ -446,8 +446,8 @@ func pbCliDeserialize(pkt *pbx.ClientMsg) *ClientComMessage {
 			Id:    set.GetId(),
 			Topic: set.GetTopic(),
 		}
-		if sq := set.GetQuery(); sq != nil {
-			msg.Set.MsgSetQuery = *pbSetQueryDeserialize(sq)
+		if sq := pbSetQueryDeserialize(set.GetQuery()); sq != nil {
+			msg.Set.MsgSetQuery = *sq
 		}
 	} else if del := pkt.GetDel(); del != nil {
 		msg.Del = &MsgClientDel{
